@@ -13,6 +13,7 @@ import (
 	"regexp"
 	"runtime"
 	"sort"
+	"strings"
 
 	"github.com/pdok/texel/tms20"
 	"verif/engine/ev"
@@ -157,6 +158,17 @@ func mutationsOfA(doc any, restricted bool) []mutation {
 				continue
 			}
 			out = append(out, mutation{Path: p, Replace: r.v, Name: "=" + r.name})
+		}
+		// tile matrix ids are integers written as strings: other spellings of the same integer (leading zero,
+		// explicit sign) are accepted documents too and must survive the round trip as written
+		if len(p) == 3 && !restricted {
+			if k, ok := p[2].(string); ok && k == "id" {
+				if root, ok := p[0].(string); ok && root == "tileMatrices" {
+					if cs, ok := cur.(string); ok && intLike.MatchString(cs) && !strings.HasPrefix(cs, "-") && !strings.HasPrefix(cs, "+") {
+						out = append(out, mutation{Path: p, Replace: "0" + cs, Name: "=id-leading-zero"}, mutation{Path: p, Replace: "+" + cs, Name: "=id-plus-sign"})
+					}
+				}
+			}
 		}
 		if len(p) >= 1 {
 			if k, ok := p[len(p)-1].(string); ok && k == "crs" && !restricted {
